@@ -266,6 +266,9 @@ def gen_regular_lines(ctx: Ctx):
         for y in (1, 1999, 2020, 9999):
             for seg in range(1, v + 1):
                 lines.append(f"fromys {f} {y} {seg}")
+            for m in range(1, 13):
+                for d in (1, 15, 28):
+                    lines.append(f"fromymd {f} {y} {m} {d}")
         ctx.count(f"regular_periods_{f}", len(regular_serials(ctx, f)))
     # integer frequency: no calendar methods
     for s in (-5, 0, 7):
@@ -403,6 +406,22 @@ def oracle_calendar(ctx: Ctx, budget_scale=1):
             except Exception as e:
                 ctx.fail(f"regular-raises-{f}", {"freq": f, "serial": s}, repr(e))
             ctx.evaluations += 1
+    # the regular period built from a calendar date (from_ymd, refrequent of the daily period) covers that date
+    for f in REG:
+        cls = CLS[f]
+        for y in sorted({1, 1900, 1999, 2000, 2019, 2020, 2023, 2024, 9999} | (set() if (ctx.quick and budget_scale == 1) else set(range(1990, 2031)))):
+            for m in range(1, 13):
+                for d in (1, 14, 28, dt.date(y + (m == 12), m % 12 + 1, 1).toordinal() - dt.date(y, m, 1).toordinal() if y < 9999 else 28):
+                    date = dt.date(y, m, d)
+                    try:
+                        p = cls.from_ymd(y, m, d)
+                        a, b = p.to_python_date(position="start"), p.to_python_date(position="end")
+                        q = D.DailyPeriod.from_ymd(y, m, d).refrequent(FREQ[f])
+                        if not (a <= date <= b) or p.year != y or q != p:
+                            ctx.fail(f"period-from-date-{f}", {"freq": f, "date": [y, m, d]}, f"from_ymd -> {p!r} covering {a}..{b}; refrequent of the day -> {q!r}")
+                    except Exception as e:
+                        ctx.fail(f"period-from-date-{f}", {"freq": f, "date": [y, m, d]}, repr(e))
+                    ctx.evaluations += 1
     # daily
     ords = list(day_ordinals(ctx))
     for n in ords[::(5 if (ctx.quick and budget_scale == 1) else 1)]:
